@@ -310,6 +310,7 @@ static int cmd_run(const std::string &prop, const std::string &tier, uint64_t se
     j.set("truncated", J::num((long long)truncated)); j.set("rechecked", J::num((long long)rechecked)); j.set("fails", J::num((long long)fails));
     j.set("wall_s_x1000", J::num((long long)((now_s() - t0) * 1000)));
     if (sim_fopen_failed()) total.add("fault.fopen.fired", sim_fopen_failed());
+    if (sim_write_failed()) total.add("fault.write.fired", sim_write_failed());
     J c = J::obj(); for (auto &kv : total.c) c.set(kv.first, J::num((long long)kv.second)); j.set("counters", c);
     J wj = J::obj(); for (auto &kv : worlds) wj.set(kv.first, J::num((long long)kv.second)); j.set("worlds", wj);
     J hs = J::arr(); for (auto h : nontrivial) hs.push(J::str(hex64(h))); j.set("nontrivial", hs);
